@@ -682,7 +682,13 @@ func (x *Exec) applyContract(cs *callSite, callee *ssa.Function, c *FuncContract
 		}
 		sort.Strings(hs)
 		for _, h := range hs {
-			if oh, ok := old.heaps[h]; ok && oh.S != st.heaps[h].S && strings.HasPrefix(string(st.heaps[h].Sort), "(Array Int ") {
+			oh, ok := old.heaps[h]
+			if !ok {
+				// not touched before the call: the caller still reads the initial heap
+				oh, ok = Term{h + "_init", st.heaps[h].Sort}, true
+				x.sc.Decl("heap:"+h, fmt.Sprintf("(declare-const %s %s)", oh.S, oh.Sort))
+			}
+			if ok && oh.S != st.heaps[h].S && strings.HasPrefix(string(st.heaps[h].Sort), "(Array Int ") {
 				x.assume(st, T(SBool, "(forall ((b Int)) (! (=> (select %s b) (= (select %s b) (select %s b))) :pattern ((select %s b))))",
 					old.alloc.S, st.heaps[h].S, oh.S, st.heaps[h].S))
 			}
